@@ -1,0 +1,70 @@
+//go:build verif
+
+package quickfix
+
+// Exports for the run-loop harness (build tag verif only): the two timers session.run() creates, a barrier through
+// the event loop, and the state as the loop left it. Used together with VerifConcSession (verif_export_conc.go).
+
+import (
+	"time"
+
+	"github.com/quickfixgo/quickfix/internal"
+)
+
+// VerifLoopTimer is one of the two EventTimers run() built (package internal is not importable by the harness). Its
+// function is the closure of run() that hands NeedHeartbeat / PeerTimeout to the loop through s.sessionEvent.
+type VerifLoopTimer struct{ t *internal.EventTimer }
+
+// StateTimer / PeerTimer: valid once run() has started (Valid reports false before).
+func (v *VerifConcSession) StateTimer() VerifLoopTimer { return VerifLoopTimer{v.s.stateTimer} }
+func (v *VerifConcSession) PeerTimer() VerifLoopTimer  { return VerifLoopTimer{v.s.peerTimer} }
+
+func (x VerifLoopTimer) Valid() bool { return x.t != nil }
+
+// Fire runs the timer's function on a goroutine of its own, as an expiry does (internal.EventTimer.VerifFire).
+func (x VerifLoopTimer) Fire() { x.t.VerifFire() }
+
+// Expire lets the underlying time.Timer expire now: the EventTimer's own goroutine runs the function.
+func (x VerifLoopTimer) Expire() { x.t.VerifExpire() }
+
+// Fired: runs of the timer's function started / returned since the first Fire or Expire.
+func (x VerifLoopTimer) Fired() (entered, returned int64) { return x.t.VerifFired() }
+
+// Forget drops the bookkeeping of the timer.
+func (x VerifLoopTimer) Forget() { x.t.VerifForget() }
+
+// Barrier sends a request through the admin channel of the event loop and waits until the loop has served it: every
+// event the loop had received before has been handled completely by then. false = not served within d (the request
+// stays queued on a goroutine of its own).
+func (v *VerifConcSession) Barrier(d time.Duration) bool {
+	done := make(chan struct{})
+	go func() {
+		rep := make(chan waitChan)
+		select {
+		case v.s.admin <- waitForInSessionReq{rep}:
+			<-rep
+			close(done)
+		case <-v.done:
+		}
+	}()
+	select {
+	case <-done:
+		return true
+	case <-time.After(d):
+		return false
+	}
+}
+
+// LoopStateName names the session state; call it after a Barrier (or after Done), never while the loop may be working.
+func (v *VerifConcSession) LoopStateName() string {
+	if _, ok := v.s.State.(pendingTimeout); ok {
+		return "Pending:" + v.s.State.String()
+	}
+	return v.s.State.String()
+}
+
+// LoopHeartBtInt is the interval the session runs with (an acceptor adopts the one of the peer's Logon).
+func (v *VerifConcSession) LoopHeartBtInt() time.Duration { return v.s.HeartBtInt }
+
+// InboxLen is the number of injected inbound messages the event loop has not taken yet.
+func (v *VerifConcSession) InboxLen() int { return len(v.in) }
